@@ -224,6 +224,16 @@ Anchored(t, n) == /\ n.k \in DOMAIN KindAt
 AnchoredTree == res.ok => Anchored(ts, res.tree)
 \* the bracket-balance pruning used for long inputs does not change the set of derivations
 PruneSound == Sentences(ts, TRUE) = der
+\* the five statements above in one invariant that evaluates Parse and the derivations once per state
+\* (used by the big configurations; the small one checks them one by one, so that a failure is named)
+AllOf(p, d, dp) ==
+  /\ p.ok <=> (d # {})
+  /\ p.ok => d = {p.tree}
+  /\ Cardinality(d) <= 1
+  /\ ~p.ok => (p.errAt \in 1 .. (Len(ts) + 1) /\ p.tree = NoTree)
+  /\ p.ok => Anchored(ts, p.tree)
+  /\ dp = d
+ParserInvariants == AllOf(Parse(ts), Sentences(ts, FALSE), Sentences(ts, TRUE))
 \* the sentence table for the conformance harness (printed once per accepted string)
 Accepted == (PrintAcc /\ res.ok) => PrintT(<<"ACC", ToJson([ts |-> ts, tree |-> res.tree])>>)
 =============================================================================
